@@ -443,15 +443,17 @@ def run(tier="quick"):
         sc.file("Cargo.toml", CARGO)
         sc.file("src/lib.rs", lib)
         sc.file("src/main.rs", MAIN)
-        names = ["u12::" + o[1] for o in KANI_OBL]
+        only_c29 = os.environ.get("ABRA_VERIF_PROP") == "C29"   # the Kani obligations serve C31 only
+        kani_obl = [] if only_c29 else KANI_OBL
+        names = ["u12::" + o[1] for o in kani_obl]
         import concurrent.futures as cf
         with cf.ThreadPoolExecutor(max_workers=2) as ex:
-            fk = ex.submit(kmulti.run, sc.path, names, 900 if tier == "thorough" else 400)
+            fk = ex.submit(kmulti.run, sc.path, names, 900 if tier == "thorough" else 400) if names else None
             fe = ex.submit(run_enumerator, sc.path, maxn, 3000 if tier == "thorough" else 400)
-            res = fk.result()
+            res = fk.result() if fk else {}
             enum = fe.result()
         obs = []
-        for oid, h, fn, keys, text in KANI_OBL:
+        for oid, h, fn, keys, text in kani_obl:
             r = res["u12::" + h]
             st = r['status']
             detail = "\n".join(r['failed'][:6])
@@ -494,6 +496,22 @@ def run(tier="quick"):
                 st, detail = E.DISCHARGED, ""
             obs.append(E.Obligation(oid, ["C31"], UNIT, fn, "exhaustive enumeration (native rustc build of the sliced parser)", st,
                                     detail, real["time_s"], P, sha_loop, bound, PRATT_TEXT + dom))
+        # ---- C29: leading blank lines / comment lines before an expression (same enumeration)
+        if vac:
+            st, detail = E.UNDECIDED, vac
+        elif real.get("n_mismatch_nl") is None:
+            st, detail = E.UNDECIDED, "enumerator did not report the leading-newline comparison"
+        elif real["n_mismatch_nl"]:
+            st = E.FAILED
+            detail = "%d token strings parse differently with two Newline tokens in front; first: %s" % (real["n_mismatch_nl"], " | ".join(real["mismatch_nl"][:6]))
+        else:
+            st, detail = E.DISCHARGED, ""
+        obs.append(E.Obligation("C29.parse.expr.leading_newlines", ["C29"], UNIT, "Parser::parse_expr",
+                                "exhaustive enumeration (native rustc build of the sliced parser)", st, detail, 0.0, P,
+                                S.sha(meta['sl']['Parser::parse_expr'] + meta['sl']['Parser::skip_newlines']), bound,
+                                "for every token string s of the bounded domain: the real parse_expr on `Newline Newline s` (what the lexer produces for "
+                                "blank lines or comment-only lines in front of an expression) accepts iff the real parse_expr_bp(0) accepts s, with the same "
+                                "diagnostics status, the same tree (operators, shape, leaf tokens) and the same number of tokens consumed after the newlines"))
         info = dict(
             assumptions=[
                 "U12/T2: token payload strings are empty; the sliced functions decide on Token::tag() only",
@@ -556,6 +574,8 @@ def replay(ob):
     with literals and once with variables of the same value in the literals' places, and run both on the
     real CLI; they must print the same value.  Fixed witnesses (`-2 <op> 3` for every operator documented
     tighter than unary minus) are tried as well."""
+    if ob.id == "C29.parse.expr.leading_newlines":
+        return newline_replay(ob)
     if ob.id != "C31.prec.prefix_minus.uniform":
         return table_replay(ob)
     info = {}
@@ -584,10 +604,30 @@ def replay(ob):
         if va != vb:
             confirmed = True
             info.setdefault('failing_input', dict(program=pa, prints=va, same_expression_with_variable=pb_, prints_var=vb))
-        elif confirmed is None:
-            confirmed = False
     info['tried'] = tried
     return confirmed, info
+
+
+def newline_replay(ob):
+    """C29.parse.expr.leading_newlines: the failing token strings, once directly after `let v =` and once after
+    `let v =` + a comment line + a blank line, on the real CLI; both programs must behave the same."""
+    tried = []
+    for m in re.finditer(r'(?:first: | \| )((?:[A-Z][A-Za-z]+ ?)+):', ob.detail or ""):
+        tags = m.group(1).split()
+        e = _render(tags, False)
+        if not e:
+            continue
+        res = []
+        for sep in (" ", " // a comment line\n\n    "):
+            prog = "let x = 2\nlet y = 2.0\nlet v =%s%s\nprintln(\"done\")\n" % (sep, e)
+            out, err, rc = abra_cli.run_program(prog)
+            msg = re.sub(r'\x1b\[[0-9;]*m', '', out + err).strip()
+            res.append((prog, rc, out, msg.split("\n")[0][:200]))
+        tried.append(dict(tokens=tags, expression=e, same_line=dict(rc=res[0][1], first_line=res[0][3]), after_comment_and_blank_line=dict(rc=res[1][1], first_line=res[1][3])))
+        if (res[0][1] == 0) != (res[1][1] == 0) or (res[0][1] == 0 and res[0][2] != res[1][2]):
+            ob.cex = dict(tokens=tags)
+            return True, dict(program_same_line=res[0][0], program_with_comment_and_blank_line=res[1][0], tried=tried)
+    return None, dict(tried=tried)
 
 
 def table_replay(ob):
